@@ -196,6 +196,18 @@ Definition lower_byte (b : byte) : byte :=
   if N.leb 65 n && N.leb n 90 then match Byte.of_N (n + 32) with Some c => c | None => b end else b.
 Definition upper (s : str) : str := map upper_byte s.
 Definition lower (s : str) : str := map lower_byte s.
+(* BioSeq.complement (seq.py:501-509): str.translate(COMPLEMENT_TRANS), with the U <-> T detour for RNA; the table is the
+   regenerated G_codes.COMPLEMENT_TRANS; characters without an entry (lower case, N already mapped to N, ...) stay *)
+Definition trans_byte (b : byte) : byte :=
+  match find (fun kv => N.eqb (fst kv) (Byte.to_N b)) COMPLEMENT_TRANS with
+  | Some (_, n) => match Byte.of_N n with Some c => c | None => b end
+  | None => b
+  end.
+Definition swap_byte (x y b : byte) : byte := if byte_eqb b x then y else b.
+Definition complement (d : str) : str :=
+  if existsb (byte_eqb "U"%byte) d
+  then map (swap_byte "T"%byte "U"%byte) (map trans_byte (map (swap_byte "U"%byte "T"%byte) d))
+  else map trans_byte d.
 Definition is_ascii (s : str) : bool := forallb (fun b => N.ltb (Byte.to_N b) 128) s.
 (* BioSeq.__init__ (seq.py:234-236): type = 'nt' if all letters are in CODES or 'U' *)
 Definition seq_type (d : str) : str :=
@@ -331,6 +343,7 @@ Definition len0 (vc : hval * ocell) : Z := match len_of vc with Some z => z | No
 Inductive ifn :=
 | FReverse                  (* BioSeq.reverse / BioBasket.reverse          seq.py:599-604, 914-920 *)
 | FLower | FUpper           (* BioSeq.str.lower / upper, BioBasket.str.*   seq.py:99-101, 168-170, 185-199 *)
+| FComplement | FRc         (* complement() / rc() of BioSeq and BioBasket seq.py:356-363, 501-509, 781-787, 894-901 *)
 | FIaddLit (s : str)        (* seq += 'ACG'                                seq.py:282-286 *)
 | FSortLen                  (* basket.sort(len)                            seq.py:1066-1085, cane.py:48-64 *)
 | FFilterLen (n : Z).       (* basket.filter(inplace=True, len_gt=n)       seq.py:1105-1134, cane.py:67-105 *)
@@ -338,6 +351,7 @@ Inductive ifn :=
 Definition seq_fn (f : ifn) : option (str -> str) :=
   match f with
   | FReverse => Some (@rev byte) | FLower => Some lower | FUpper => Some upper
+  | FComplement => Some complement | FRc => Some (fun d => complement (rev d))
   | FIaddLit s => Some (fun d => d ++ s)
   | _ => None
   end.
@@ -351,7 +365,7 @@ Definition inplace_cmd (f : ifn) (l : nat) (c : ocell) : cmd :=
       end
   | KBasket =>
       match f with
-      | FReverse | FLower | FUpper =>
+      | FReverse | FLower | FUpper | FComplement | FRc =>
           match seq_fn f with
           | Some g => foreach (oes c) (seq_map g) (Ret (HRef l))
           | None => Fail EOut
@@ -460,6 +474,8 @@ Inductive bfn :=
 | BExtend          (* container += other_container : the ELEMENTS are shared; returns the receiver     UserList.__iadd__ *)
 | BSetFts          (* seq.fts = other_fts : a NEW FeatureList holding the SAME features                seq.py:326-330 *)
 | BSetRef (k : str)(* mapping[k] = existing object (an Attr / list / FeatureList is stored as it is)   meta.py:49-54 *)
+| BSetItem (i : Z) (* basket[i] = seq : the basket stores BioSeq(seq), a NEW sequence object whose re-wrapped metadata shares
+                      meta.fts and nested metadata with the operand                                    seq.py:876-882, 221-243 *)
 | BIs.             (* a is b *)
 
 Definition bin_cmd (f : bfn) (a b : hval) : cmd :=
@@ -475,7 +491,22 @@ Definition bin_cmd (f : bfn) (a b : hval) : cmd :=
       rd a (fun _ c => rd b (fun _ c2 =>
         match ocls c, aget kmeta (ofs c), ocls c2 with
         | KSeq, Some m, KFts =>
-            Alloc (OC KFts [] (oes c2)) (fun f => rd m (fun ml mc => Write ml (set_slot mc kfts (HRef f)) (Ret HNull)))
+            Alloc (OC KFts [] (oes c2)) (fun f => rd m (fun ml mc =>
+              (* the setter compares ft.seqid with self.id AFTER assigning: without an 'id' item that raises AttributeError on a
+                 half-done assignment -- outside the modelled domain *)
+              if negb (amem kid (ofs mc)) && negb (match oes c2 with [] => true | _ => false end) then Fail EOut
+              else Write ml (set_slot mc kfts (HRef f)) (Ret HNull)))
+        | _, _, _ => Fail EOut
+        end))
+  | BSetItem i =>
+      rd a (fun l c => rd b (fun _ c2 =>
+        match ocls c, seq_data c2, aget kmeta (ofs c2) with
+        | KBasket, Some d, Some m =>
+            new_seq d m (fun v =>
+              match nth_py (oes c) i with
+              | Some _ => Write l (set_elems c (set_py (oes c) i v)) (Ret HNull)
+              | None => Fail EIndex
+              end)
         | _, _, _ => Fail EOut
         end))
   | BSetRef k =>
